@@ -18,6 +18,7 @@ type EvalCtx struct {
 	pkg    *ssa.Package
 	locals bool // resolve source-level locals through DebugRefs
 	facts  []string
+	shadow map[string]bool // names bound explicitly (callee parameters at a call site): never the enclosing function's locals
 	err    []string
 	bound  int
 	depth  int
@@ -125,6 +126,18 @@ func (x *EvalCtx) eval(e Expr) Val {
 	return v
 }
 
+// strFacts: the basic facts of a string term built by a spec builtin.
+func (x *EvalCtx) strFacts(t string) {
+	if strings.Contains(t, "!q") {
+		return
+	}
+	tgt := x.factSink
+	if tgt == nil {
+		tgt = x.s
+	}
+	tgt.strBasics(t)
+}
+
 func (x *EvalCtx) note(v Val) Val {
 	ground := func(t string) bool { return !strings.Contains(t, "!q") }
 	switch kindOf(v.T) {
@@ -196,7 +209,46 @@ func (x *EvalCtx) eval1(e Expr) Val {
 	return x.fail("unsupported spec expression %s", e)
 }
 
+// isEntryParam: v is the entry value of the verified function's parameter called name.
+func (x *EvalCtx) isEntryParam(name string, v Val) bool {
+	for _, p := range x.s.c.fn.Params {
+		if p.Name() != name {
+			continue
+		}
+		ev, ok := x.s.c.entryVals[p]
+		if !ok {
+			return false
+		}
+		a, b := flatten(ev), flatten(v)
+		if len(a) != len(b) || len(a) == 0 {
+			return false
+		}
+		for i := range a {
+			if a[i] != b[i] {
+				return false
+			}
+		}
+		return true
+	}
+	return false
+}
+
 func (x *EvalCtx) ident(name string) Val {
+	if x.locals {
+		// a parameter that has been reassigned denotes its current value where locals are in scope
+		if cur, isParam := x.vars[name]; isParam && !x.shadow[name] && x.isEntryParam(name, cur) {
+			if nb, ok := x.s.names[name]; ok && !nb.IsAddr {
+				if _, isP := nb.V.(*ssa.Parameter); !isP {
+					if v, ok := x.s.env[nb.V]; ok {
+						return v
+					}
+					if c, isC := nb.V.(*ssa.Const); isC {
+						return x.s.constVal(c)
+					}
+				}
+			}
+		}
+	}
 	if v, ok := x.vars[name]; ok {
 		return v
 	}
@@ -593,6 +645,7 @@ func (x *EvalCtx) quant(n *EQuant) Val {
 var strSpecFuncs = map[string]string{
 	"blen": sInt, "nl": sInt, "vlen": sInt,
 	"clean": sBool, "wf": sBool, "sgr": sBool, "digits": sBool, "noNL": sBool, "noCTL": sBool,
+	"sgrs": sBool, "p1": sBool, "sgrch": sBool, "mxl": sInt, "fstl": sInt, "lstl": sInt, "mmin": sInt, "nsc": sInt,
 }
 
 func (x *EvalCtx) callExpr(n *ECall) Val {
@@ -744,6 +797,73 @@ func (x *EvalCtx) callExpr(n *ECall) Val {
 	case "valid":
 		a := x.eval(n.Args[0])
 		return Val{T: boolT, S: app("validI", a.S)}
+	case "cells", "cellsText", "cellsUpto":
+		// the match lists of ansi.expand (cells.go)
+		xs := x.eval(n.Args[0])
+		if kindOf(xs.T) != kSlice || xs.Sl == nil {
+			return x.fail("%s: not a slice", n.Fn)
+		}
+		x.s.declCells()
+		R, off, ln := xs.Sl.Base, xs.Sl.Off, xs.Sl.Len
+		switch n.Fn {
+		case "cells":
+			return Val{T: boolT, S: or(eq(ln, "0"), and(app("isCells", R), app("<=", "0", off), app("<=", app("+", off, ln), app("cellsN", R)), x.s.cellsWholeFacts(R)))}
+		case "cellsText":
+			t := app("span", R, off, app("+", off, ln))
+			x.facts = append(x.facts, eq(app("span", R, off, off), "emp"))
+			if !strings.Contains(t, "!q") {
+				x.facts = append(x.facts, x.s.spanFacts(R, off, app("+", off, ln)))
+			}
+			x.strFacts(t)
+			return Val{T: strT, S: t}
+		default:
+			if len(n.Args) != 2 {
+				return x.fail("cellsUpto takes a slice and a count")
+			}
+			i := x.eval(n.Args[1])
+			t := app("span", R, off, app("+", off, i.S))
+			x.facts = append(x.facts, eq(app("span", R, off, off), "emp"))
+			if !strings.Contains(t, "!q") {
+				x.facts = append(x.facts, x.s.spanFacts(R, off, app("+", off, i.S)))
+			}
+			x.strFacts(t)
+			return Val{T: strT, S: t}
+		}
+	case "sumVlen", "sumNsc":
+		// the sum of a measure over the elements of a []string
+		xs := x.eval(n.Args[0])
+		if kindOf(xs.T) != kSlice || xs.Sl == nil {
+			return x.fail("%s: not a slice", n.Fn)
+		}
+		x.s.declSums()
+		f := map[string]string{"sumVlen": "ssum_vlen", "sumNsc": "ssum_nsc"}[n.Fn]
+		inner := x.s.strElems(xs.Sl.Base)
+		x.facts = append(x.facts, eq(app(f, inner, xs.Sl.Off, xs.Sl.Off), "0"))
+		return Val{T: intT, S: app(f, inner, xs.Sl.Off, app("+", xs.Sl.Off, xs.Sl.Len))}
+	case "styledBy":
+		if len(n.Args) != 2 {
+			return x.fail("styledBy takes a text and a style")
+		}
+		t, st := x.eval(n.Args[0]), x.eval(n.Args[1])
+		x.s.declCells()
+		r := app("styledBy", t.S, st.S)
+		return Val{T: strT, S: r}
+	case "wholeCells":
+		// wholeCells(x): the match list is a complete expansion (starts at cell 0 and ends at the last cell)
+		xs := x.eval(n.Args[0])
+		if kindOf(xs.T) != kSlice || xs.Sl == nil {
+			return x.fail("%s: not a slice", n.Fn)
+		}
+		x.s.declCells()
+		return Val{T: boolT, S: or(and(eq(xs.Sl.Len, "0"), eq(xs.Sl.Off, "0")), and(eq(xs.Sl.Off, "0"), eq(xs.Sl.Len, app("cellsN", xs.Sl.Base))))}
+	case "cellsOf":
+		// cellsOf(x): the text the match list was expanded from
+		xs := x.eval(n.Args[0])
+		if kindOf(xs.T) != kSlice || xs.Sl == nil {
+			return x.fail("%s: not a slice", n.Fn)
+		}
+		x.s.declCells()
+		return Val{T: strT, S: app("cellsTxt", xs.Sl.Base)}
 	case "urlStr":
 		a := x.eval(n.Args[0])
 		return Val{T: strT, S: app("urlStr", a.S)}
